@@ -1,5 +1,6 @@
 import Agd.Tie.TrC20
 import Agd.Lemmas.Config
+import Agd.Lemmas.ConfigShape
 import Agd.Tie.C20
 /-!
 # C20 — a configuration that passes validation cannot make request handling fail
@@ -448,6 +449,215 @@ example : envCheck { dist with alType := "backend" } { kvSize := 1, rlUrl := .ba
 theorem parse_range_uint (v : Int) : Ty.inRange .uint v = true ↔ 0 ≤ v ∧ v < 18446744073709551616 := by
   simp [Ty.inRange]; omega
 
+
+/-! ## Round 5 — the structure of the tree: any number of server groups, optional sections
+
+`Shape.validate` is `serverGroups.validate`, `Shape.collect legacy` is
+`serverGroups.collectSessTicketPaths` (called by `builder.initTLSManager`), `Shape.startup legacy` the
+builder steps of `Main` that follow.  `legacy = true` is the tree as found. -/
+namespace Shape
+
+/-- The documented requirements on one server group, written down independently of the order of the
+checks: `ddr` is there, there is a server, the `tls` section is there exactly when one of the servers
+speaks an encrypted protocol, and then it lists certificates, none of them `null`. -/
+structure Documented (g : Group) : Prop where
+  ddr : g.ddr = true
+  servers : g.srvs ≠ []
+  tlsIff : g.tls.isSome = g.needsTls
+  certs : ∀ t, g.tls = some t → 0 < t.certs ∧ t.nilCert = false
+
+theorem valGroup_none_iff (g : Group) : valGroup g = none ↔ Documented g := by
+  obtain ⟨ddr, tls, srvs, prof⟩ := g
+  constructor
+  · intro h
+    unfold valGroup at h
+    simp only at h
+    split at h; · cases h
+    split at h; · cases h
+    rename_i hd hs
+    have hd' : ddr = true := by simpa using hd
+    have hs' : srvs ≠ [] := by simpa [List.isEmpty_iff] using hs
+    cases tls with
+    | none =>
+      refine ⟨hd', hs', ?_, by simp⟩
+      simp only [valTls] at h
+      split at h
+      · cases h
+      · rename_i hn; simpa using hn
+    | some t =>
+      simp only [valTls] at h
+      split at h; · cases h
+      split at h; · cases h
+      split at h; · cases h
+      rename_i h1 h2 h3
+      refine ⟨hd', hs', ?_, ?_⟩
+      · simpa using h1
+      · intro t' ht'; cases ht'
+        exact ⟨by omega, by simpa using h3⟩
+  · intro ⟨hd, hs, ht, hc⟩
+    simp only [Group.needsTls] at hd hs ht hc
+    have hse : srvs.isEmpty = false := by cases srvs <;> simp_all
+    unfold valGroup
+    simp only [hd, Bool.not_true, Bool.false_eq_true, ↓reduceIte, hse]
+    cases tls with
+    | none =>
+      simp only [Option.isSome_none] at ht
+      simp [valTls, Group.needsTls, ← ht]
+    | some t =>
+      simp only [Option.isSome_some] at ht
+      obtain ⟨h1, h2⟩ := hc t rfl
+      have h0 : t.certs ≠ 0 := by omega
+      simp [valTls, Group.needsTls, ← ht, h0, h2]
+
+/-- **shape_accepts_iff.** A list of server groups passes validation exactly when it is not empty and
+every group — not only the first — meets the documented requirements; in particular every accepted group
+has a `tls` section exactly when one of its servers needs it. -/
+theorem shape_accepts_iff (s : Shape) :
+    validate s = none ↔ s.groups ≠ [] ∧ ∀ g ∈ s.groups, Documented g := by
+  unfold validate
+  cases h : s.groups with
+  | nil => simp
+  | cons g gs =>
+    simp only [List.isEmpty_cons, Bool.false_eq_true, ↓reduceIte, valFrom_none, ne_eq, reduceCtorEq,
+      not_false_eq_true, true_and]
+    exact ⟨fun hh g' hg' => (valGroup_none_iff g').mp (hh g' hg'), fun hh g' hg' => (valGroup_none_iff g').mpr (hh g' hg')⟩
+
+/-- **shape_reject_names_group.** A rejection names a group that exists and that really breaks a
+documented requirement (or the empty list of groups). -/
+theorem shape_reject_names_group (s : Shape) (i : Nat) (p : Part) (k : Kind) (h : validate s = some (i, p, k)) :
+    (s.groups = [] ∧ p = .groups) ∨ ∃ g, s.groups[i]? = some g ∧ ¬ Documented g ∧ valGroup g = some (p, k) := by
+  unfold validate at h
+  split at h
+  · rename_i he
+    left; simp at h; exact ⟨by simpa [List.isEmpty_iff] using he, h.2.1.symm⟩
+  · right
+    obtain ⟨_, g, hg, hv⟩ := valFrom_some 0 s.groups i (p, k) h
+    refine ⟨g, by simpa using hg, ?_, hv⟩
+    intro hd; rw [(valGroup_none_iff g).mpr hd] at hv; cases hv
+
+/-- **shape_legacy_collect_panics_iff.** In the tree as found the collection of the session-ticket
+files crashes exactly when some group has no `tls` section. -/
+theorem shape_legacy_collect_panics_iff (gs : List Group) :
+    collect true gs = none ↔ ∃ g ∈ gs, g.tls = none :=
+  collectFrom_legacy_none gs []
+
+/-- **shape_legacy_accepted_panics_iff.** For configurations that PASS validation the tree as found
+crashes in `initTLSManager` exactly when some group consists of plain-DNS / DNSCrypt servers only —
+the very groups for which validation forbids the section. -/
+theorem shape_legacy_accepted_panics_iff (s : Shape) (h : validate s = none) :
+    startup true s = .panic .tlsManager ↔ ∃ g ∈ s.groups, g.needsTls = false := by
+  have hd := ((shape_accepts_iff s).mp h).2
+  have hc := shape_legacy_collect_panics_iff s.groups
+  unfold startup
+  cases hcol : collect true s.groups with
+  | none =>
+    simp only [true_iff]
+    obtain ⟨g, hg, ht⟩ := hc.mp hcol
+    refine ⟨g, hg, ?_⟩
+    have := (hd g hg).tlsIff; rw [ht] at this; simpa using this.symm
+  | some ts =>
+    have hno : ¬ ∃ g ∈ s.groups, g.tls = none := fun hh => by rw [hc.mpr hh] at hcol; cases hcol
+    constructor
+    · intro hp; simp only at hp; split at hp; · cases hp
+      split at hp <;> cases hp
+    · rintro ⟨g, hg, hn⟩
+      exfalso; apply hno
+      refine ⟨g, hg, ?_⟩
+      have := (hd g hg).tlsIff; rw [hn] at this
+      cases ht : g.tls <;> simp_all
+
+/-- **shape_legacy_nil_tls_counterexample.** The finding: one group with one plain-DNS server and no
+`tls` section passes validation, and the start-up of the tree as found panics in the TLS-manager step. -/
+theorem shape_legacy_nil_tls_counterexample :
+    ¬ (∀ s : Shape, validate s = none → startup true s ≠ .panic .tlsManager) := by
+  intro h
+  exact h { groups := [{ srvs := [.dns] }] } (by decide) (by decide)
+
+/-- The second example of the report: the distributed group next to a plain-DNS-only group. -/
+def exTwoGroups : Shape :=
+  { groups := [{ tls := some { keys := [1, 0] }, srvs := [.dnsIf, .tls, .https, .quic, .dnscrypt], profiles := true },
+               { srvs := [.dns, .dnscrypt] }] }
+example : validate exTwoGroups = none ∧ startup true exTwoGroups = .panic .tlsManager ∧
+    startup false exTwoGroups = .ok { tickets := [0, 1], tlsSrvs := 3, web := true, qlog := true, profiles := true, groups := 2 } := by
+  decide
+
+/-- **shape_collect_total.** The repaired collection never fails, whatever the groups look like
+(validated or not), and its result is the set of files listed by the groups that have a section:
+strictly increasing (sorted, no duplicates) and with exactly those members. -/
+theorem shape_collect_total (gs : List Group) :
+    ∃ r, collect false gs = some r ∧ Sorted r ∧
+      ∀ x, x ∈ r ↔ ∃ g ∈ gs, ∃ t, g.tls = some t ∧ x ∈ t.keys := by
+  obtain ⟨r, hr, hs, hm⟩ := collectFrom_repaired gs [] List.Pairwise.nil
+  exact ⟨r, hr, hs, fun x => by simpa using hm x⟩
+
+/-- Where every group has a section the repair changes nothing. -/
+theorem shape_collect_same (gs : List Group) (h : ∀ g ∈ gs, g.tls ≠ none) : collect true gs = collect false gs :=
+  collectFrom_same gs [] h
+
+/-- **shape_startup_never_panics.** Repaired tree: no list of groups and optional sections makes the
+modelled start-up steps panic. -/
+theorem shape_startup_never_panics (s : Shape) (g : Stage) : startup false s ≠ .panic g := by
+  obtain ⟨r, hr, _⟩ := shape_collect_total s.groups
+  unfold startup; rw [hr]; simp only
+  split; · simp
+  split <;> simp
+
+/-- **shape_startup_ok_iff.** Repaired tree: the start-up steps succeed exactly when the two references
+that only start-up can resolve do resolve — `bind_interfaces` needs `interface_listeners`, `web.linked_ip`
+needs `LINKED_IP_TARGET_URL` — and then the program holds what the file says: the ticket files of the
+groups with a section, a TLS configuration for every encrypted server, the web service and the query log
+as configured, all groups. -/
+theorem shape_startup_ok_iff (s : Shape) :
+    (∃ st, startup false s = .ok st) ↔ (usesIfaces s = true → s.ifaces = true) ∧
+      (s.web = true → s.linkedIp = true → s.linkedUrl = true) := by
+  obtain ⟨r, hr, _⟩ := shape_collect_total s.groups
+  unfold startup; rw [hr]; simp only
+  cases usesIfaces s <;> cases s.ifaces <;> cases s.web <;> cases s.linkedIp <;> cases s.linkedUrl <;> simp
+
+theorem shape_startup_ok_holds (s : Shape) (st : Started) (h : startup false s = .ok st) :
+    collect false s.groups = some st.tickets ∧ st.tlsSrvs = tlsSrvs s ∧ st.web = s.web ∧ st.qlog = s.qlog ∧
+      st.groups = s.groups.length := by
+  obtain ⟨r, hr, _⟩ := shape_collect_total s.groups
+  unfold startup at h; rw [hr] at h; simp only at h
+  split at h; · cases h
+  split at h; · cases h
+  cases h; simp [hr]
+
+/-- **shape_startup_error_dangling.** A start-up error of the repaired tree names a reference that
+really dangles. -/
+theorem shape_startup_error_dangling (s : Shape) (g : Stage) (h : startup false s = .xerr g) :
+    (g = .serverGroups ∧ usesIfaces s = true ∧ s.ifaces = false) ∨
+    (g = .web ∧ s.web = true ∧ s.linkedIp = true ∧ s.linkedUrl = false) := by
+  obtain ⟨r, hr, _⟩ := shape_collect_total s.groups
+  unfold startup at h; rw [hr] at h; simp only at h
+  split at h
+  · rename_i h1; cases h; left; simpa using h1
+  · split at h
+    · rename_i h2; cases h; right; simpa [and_assoc] using h2
+    · cases h
+
+example : startup false { groups := [{ srvs := [.dnsIf] }], ifaces := false } = .xerr .serverGroups := by decide
+example : startup false { groups := [{ srvs := [.dns] }], linkedUrl := false } = .xerr .web := by decide
+example : validate { groups := [{ srvs := [.dns] }, { srvs := [.tls] }] } = some (1, .tls, .noValue) := by decide
+example : validate { groups := [{ tls := some {}, srvs := [.dnscrypt] }] } = some (0, .tls, .cross) := by decide
+example : Documented { tls := some { keys := [3, 2] }, srvs := [.dns, .quic] } :=
+  ⟨rfl, by simp, by decide, fun t h => by cases h; exact ⟨by decide, rfl⟩⟩
+
+end Shape
+
+#print axioms Shape.shape_accepts_iff
+#print axioms Shape.shape_reject_names_group
+#print axioms Shape.shape_legacy_collect_panics_iff
+#print axioms Shape.shape_legacy_accepted_panics_iff
+#print axioms Shape.shape_legacy_nil_tls_counterexample
+#print axioms Shape.shape_collect_total
+#print axioms Shape.shape_collect_same
+#print axioms Shape.shape_startup_never_panics
+#print axioms Shape.shape_startup_ok_iff
+#print axioms Shape.shape_startup_ok_holds
+#print axioms Shape.shape_startup_error_dangling
+#print axioms Shape.valGroup_none_iff
+
 #print axioms accepted_meets_documented
 #print axioms validate_sound
 #print axioms safe_build_eq
@@ -579,3 +789,6 @@ end Agd.Config
 #print axioms Agd.Tie.TrC20.validateConnLimit_panics_iff
 #print axioms Agd.Tie.TrC20.validateConnLimit_accepts
 #print axioms Agd.Tie.TrC20.validateConnLimit_tr
+#print axioms Agd.Tie.TrC20.collectSessTicketPaths_trace
+#print axioms Agd.Tie.TrC20.collectSessTicketPaths_total
+#print axioms Agd.Tie.TrC20.collect_tr
